@@ -129,7 +129,7 @@ def main(ctx):
 
     def asm_part():
         names = C20.fn_names(ctx)
-        parts = ["matrix012", "pathlike"] if ctx.quick else ["matrix012", "pathlike", "matrix012b", "matrix3", "values1"]
+        parts = ["matrix012", "cells"] if ctx.quick else ["matrix012", "cells", "matrix012b", "matrix3", "values1"]
         acases = C20.gen_cases(ctx, names, parts=parts, nrandom=500 if ctx.quick else 5000)
         return C20.judge(ctx, acases, shrink=False)
     ctx.build("asmx")
